@@ -20,9 +20,9 @@ GENERATED = ["Monitor.lean"]
 
 
 def gen_case(rng, level=None):
-    level = level or rng.choice(["unit", "unit", "udp", "tcp", "tcpsrv", "dtlssrv", "tcpsrvdef", "dtlssrvdef", "udpnc", "tcpnc"])
+    level = level or rng.choice(["unit", "unit", "udp", "tcp", "tcpsrv", "dtlssrv", "tcpsrvdef", "dtlssrvdef", "udpnc", "tcpnc", "udpreq"])
     stream = level in ("tcp", "tcpsrv", "tcpsrvdef", "tcpnc")
-    can_fail = level in ("unit", "udp", "udpnc")
+    can_fail = level in ("unit", "udp", "udpnc", "udpreq")
     period = rng.choice([100, 1000, 1_000_000, 16_000_000_000 // 3])
     n = rng.choice(["-", "0", "1", "2", "3"])
     if level.endswith("nc") and n == "-":
